@@ -63,9 +63,15 @@ def build_worlds(case):
     for rel, lines in case.get('extra_files', {}).items():
         files[f'{PDIR}/{rel}'] = '\n'.join(lines) + '\n'
     pre_links = {f'{PDIR}/{rel}': f'{PDIR}/{tgt}' for rel, tgt in case.get('extra_links', {}).items()}
+    if any('twice9.asm' in ln for ln in files.get(f'{PDIR}/main.asm', '').split('\n')):
+        # a name that exists in two search directories, but is only ever named by an #include in unselected code
+        files[f'{PDIR}/twice9.asm'] = '  .byte $T1\n'.replace('$T1', '$71')
+        files[f'{PDIR}/tw2/twice9.asm'] = '  .byte $72\n'
     isa = {f'{PDIR}/{case["isa_name"]}': case['isa_text']}
     sched = case.get('sched', {})
     dirs = list(case.get('inc_dirs', progtree.include_dirs(main)))
+    if any(it['t'] == 'line' and 'twice9.asm' in it['s'] for it in main['items']) and 'tw2' not in dirs:
+        dirs.append('tw2')
     order = sched.get('order')
     if order:
         dirs = [dirs[i] for i in order if i < len(dirs)]
@@ -86,6 +92,16 @@ def build_worlds(case):
     if sched.get('src_dir_again'):
         # the source file's own directory supplied once more as a search directory, under some spelling
         argv_dirs.append({'dot': '.', 'abs': PDIR, 'slash': './'}[sched['src_dir_again']])
+    if sched.get('cwd_parent') and not sched.get('cwd_elsewhere') and not sched.get('main_symlink'):
+        # started from the parent directory: the source is named with a directory part and the -I directories are
+        # given relative to the WORKING directory (where else), not relative to the source file
+        cwd = '/sim'
+        main_arg, isa_arg = 'p/main.asm', f'p/{case["isa_name"]}'
+        argv_dirs = [d if d.startswith('/') else os.path.normpath(f'p/{d}') for d in argv_dirs]
+        for rel in progtree.split_files(main):
+            if '/' in rel:
+                # decoy under <source dir>/p/... : where a relative -I would point if resolved against the source file
+                files[f'{PDIR}/p/{rel}'] = '  .byte $DE, $C2\n'
     if sched.get('cwd_elsewhere'):
         # started from another directory that happens to hold files named like the included ones (never searched)
         cwd = '/sim/w'
@@ -223,6 +239,8 @@ def gen_sched(rnd, ndirs, trivial=False):
         sc['crlf'] = True
     if rnd.random() < 0.15:
         sc['main_symlink'] = True
+    if rnd.random() < 0.2:
+        sc['cwd_parent'] = True
     return sc
 
 
